@@ -243,9 +243,22 @@ class _Guards:
             block.pop()
             self.n += 1
             self._drop_trailing(block, kind)
+        elif _is_bare(last, kind) and len(block) == 1:
+            block[0] = ast.copy_location(ast.Pass(), last)  # `else: continue` in tail position does nothing
+            self.n += 1
         elif isinstance(last, ast.If):
             self._drop_trailing(last.body, kind)
             self._drop_trailing(last.orelse, kind)
+        elif isinstance(last, ast.Try):
+            # leaving the try (through its finally, if any) in tail position of the loop body is `continue`
+            self._drop_trailing(last.body, kind)
+            for h in last.handlers:
+                self._drop_trailing(h.body, kind)
+            self._drop_trailing(last.orelse, kind)
+            if last.orelse == []:
+                pass
+        elif isinstance(last, (ast.With, ast.AsyncWith)):
+            self._drop_trailing(last.body, kind)
 
     def _wanted(self, test, negated: bool) -> bool:
         """the (possibly negated) test is a shape the reference knows and the function does not contain yet, while the current
